@@ -1,6 +1,6 @@
 """C13 - transaction decoding is lossless and identifiers are correct."""
 import json, os, re, glob
-import checklib, drivers, btc
+import checklib, drivers, btc, build
 from drivers import CallJob
 import c01
 
@@ -50,7 +50,7 @@ def tx_lines(chk):
     for t in txs:
         add(t.serialize().hex())
     # real-chain transactions
-    for f in sorted(glob.glob("/repo/doc/txs/*")):
+    for f in sorted(glob.glob(build.REPO + "/doc/txs/*")):
         for m in re.findall(r"[0-9a-f]{120,}", open(f).read()):
             add(m)
     # every strict prefix of small samples
